@@ -429,14 +429,15 @@ def setPreambleLength (v : UInt16) : DM Unit := do
 def loraSetImplicitHeader (header : Option (UInt8 × Bool × Nat)) : DM Unit := do
   checkModulation SX127x_MODULATION_LORA
   match header with
+  -- the handle follows the chip: it is updated only when every transfer succeeded
   | none => do
-    modH fun h => { h with expected := 0, implicitHeader := false }
     appendRegister REGMODEMCONFIG1 (u8 SX127x_HEADER_MODE_EXPLICIT) 0xfe
+    modH fun h => { h with expected := 0, implicitHeader := false }
   | some (length, enableCrc, codingRate) => do
-    modH fun h => { h with expected := length.toUInt16, implicitHeader := true }
     appendRegister REGMODEMCONFIG1 (u8 (SX127x_HEADER_MODE_IMPLICIT ||| codingRate)) 0xf0
     swrite REGPAYLOADLENGTH [length]
     appendRegister REGMODEMCONFIG2 (sel enableCrc 0x04 0x00) 0xfb
+    modH fun h => { h with expected := length.toUInt16, implicitHeader := true }
 
 /-- `sx127x_lora_set_frequency_hopping`; `none` = NULL list -/
 def loraSetFrequencyHopping (period : UInt8) (freqs : Option (List UInt64)) (len : UInt8) : DM Unit := do
@@ -445,8 +446,8 @@ def loraSetFrequencyHopping (period : UInt8) (freqs : Option (List UInt64)) (len
   | none => fail SX127X_ERR_INVALID_ARG
   | some l =>
     if len = 0 then fail SX127X_ERR_INVALID_ARG else do
-    modH fun h => { h with freqs := some l, freqLen := len }
     swrite REGHOPPERIOD [period]
+    modH fun h => { h with freqs := some l, freqLen := len }
 
 /-- `sx127x_lora_rx_get_packet_snr`: the SNR is `(int8_t) value * 0.25f`, exact -/
 def snrOf (value : UInt8) : F :=
@@ -562,9 +563,9 @@ def loraTxSetExplicitHeader (header : Option (Bool × Nat)) : DM Unit := do
   match header with
   | none => fail SX127X_ERR_INVALID_ARG
   | some (enableCrc, codingRate) => do
-    modH fun h => { h with implicitHeader := false, expected := 0 }
     appendRegister REGMODEMCONFIG1 (u8 (codingRate ||| SX127x_HEADER_MODE_EXPLICIT)) 0xf0
     appendRegister REGMODEMCONFIG2 (sel enableCrc 0x04 0x00) 0xfb
+    modH fun h => { h with implicitHeader := false, expected := 0 }
 
 /-- `sx127x_lora_tx_set_for_transmission`; `data.length` is the `uint8_t data_length` -/
 def loraTxSetForTransmission (data : List UInt8) : DM Unit := do
